@@ -1132,6 +1132,9 @@ func contains(xs []int, x int) bool {
 }
 
 func exec(c px.Context, op string, steps []sx.Sexp) core.Result {
+	if op == "mut" {
+		return execMut(c, steps)
+	}
 	if op == "res" || op == "resp" {
 		return execRes(c, steps, op == "resp")
 	}
@@ -1596,4 +1599,6 @@ func gen(g *core.G) {
 	}
 	// the resolving operations (resolve.go)
 	genRes(g)
+	// a MutableHashValue as an object (mutable.go)
+	genMut(g)
 }
